@@ -99,6 +99,17 @@ def decodeReqs (s : String) : Option (List RouteReq) :=
       some { connect := conn, scheme := (← bytesOfHex sc), urlHost := (← bytesOfHex h), path := (← bytesOfHex p), query := (← optBytes q) }
     | _ => none
 
+/-- the process environment: `envhttp=<url…>` `envhttps=<url…>` `envno=<hosts>`; `none` when no such
+    token is given -/
+def decodeAmbient (t : List String) : Option (Option Ambient) :=
+  match kv t "envhttp", kv t "envhttps", kv t "envno" with
+  | none, none, none => some none
+  | a, b, c => do
+    let hp ← decodeProxyURL (splitList (a.getD "none"))
+    let hsp ← decodeProxyURL (splitList (b.getD "none"))
+    let no ← bytesList (c.getD "~")
+    some (some { httpProxy := hp, httpsProxy := hsp, noProxy := no })
+
 def encodePac : Option PacResult → String
   | none => "none"
   | some .fail => "fail"
@@ -137,7 +148,10 @@ def handle : List String → String
       | some sc =>
         if (sc.map UrlScript.modelled).getD true == false then "bad-op" else
         let c : InstCfg := { rc := rc, script := sc }
-        let ds := runSeq c {} qs
+        -- with `env…=` tokens the decisions are those of an instance in a process with that environment
+        let ds := match decodeAmbient toks with
+          | some (some env) => qs.map (routeIn env c)
+          | _ => runSeq c {} qs
         let items := (qs.zip ds).map fun (q, d) => s!"{encodeRoute (c.at q) d} @ {encodePac (scriptAnswer c q)} @ {hexOfBytes q.url}"
         s!"seq {ds.length} | " ++ " | ".intercalate items
     | _, _ => "bad-op"
@@ -168,6 +182,14 @@ def handle : List String → String
       | some (h, p) => s!"ok {hexOfBytes h} {hexOfBytes p}"
       | none => "err"
     | none => "bad-op"
+  | "dial" :: toks =>
+    -- the attempts of one `Dialer.DialContext(addr)`: `attempts=n outcomes=0,1,…` → `ok|fail <addr>:<0|1>,…`
+    match decodeRouteCfg toks, bytesOfHex (kvD toks "addr" "_"), natOf (kvD toks "attempts" "1"),
+          (splitList (kvD toks "outcomes" "~")).mapM boolOf with
+    | some rc, some a, some n, some os =>
+      let as := dialAttempts { connectTo := rc.connectTo, attempts := n } a os
+      s!"{if dialOk as then "ok" else "fail"} {joinList (as.map fun x => hexOfBytes x.addr ++ ":" ++ ofBool x.ok)}"
+    | _, _, _, _ => "bad-op"
   | "redirect" :: toks =>
     match decodeRouteCfg toks, bytesOfHex (kvD toks "addr" "_") with
     | some rc, some a => s!"ok {hexOfBytes (redirect rc.connectTo a)}"
